@@ -258,6 +258,11 @@ M("c14.legacy.mr.tested", "C14", NUMPY, "        while a in tested:\n           
 M("c14.legacy.isprime.order", "C14", NUMPY, "        if N == p:\n            return True\n        if N % p == 0:\n            return False", "        if N % p == 0:\n            return False\n        if N == p:\n            return True", "K-pw|primality.legacy.isPrime")
 M("c14.legacy.isprime.small", "C14", NUMPY, "    if N < 3 or N & 1 == 0:\n        return N == 2\n    for p in sieve_base:", "    if N < 3 or N & 1 == 0:\n        return N <= 2\n    for p in sieve_base:", "K-pw|primality.legacy.isPrime")
 KDFPY = "lib/Crypto/Protocol/KDF.py"
+M("c12.eks.iterations", "C12", "src/blowfish.c", "iterations = 1U << cost;", "iterations = 2U * cost;", "K-pw|c|eksblowfish.setup")
+M("c12.eks.loop.order", "C12", "src/blowfish.c", "    if (!invert) {", "    if (invert) {", "K-pw|c|eksblowfish.setup")
+M("c12.eks.circ.wrap", "C12", "src/blowfish.c", "        if (len == *idx)\n            *idx = 0;", "        if (len <= *idx + 1)\n            *idx = 0;", "K-pw|c|eksblowfish.setup")
+M("c17.eks.empty.key", "C17", "src/blowfish.c", "if (keylength < 1 || keylength > 72) {", "if (keylength > 72) {", "G-c|c|eksblowfish.lengths")
+M("c17.eks.empty.salt", "C17", "src/blowfish.c", "    if (saltlength < 1) {", "    if (saltlength > 4096) {", "G-c|c|eksblowfish.lengths")
 M("c12.bcrypt.hash24", "C12", KDFPY, "hash_enc = _bcrypt_encode(ctext[:-1])", "hash_enc = _bcrypt_encode(ctext)", "K-pw|bcrypt.assembly")
 M("c12.bcrypt.nul72", "C12", KDFPY, "    if len(password) < 72:\n        password += b\"\\x00\"", "    if len(password) <= 72:\n        password += b\"\\x00\"", "")
 M("c12.bcrypt.enc.shift", "C12", KDFPY, "idx = int(g, 2) << (6 - len(g))", "idx = int(g, 2)", "K-pw|bcrypt.radix64")
